@@ -4,6 +4,7 @@
 # The arena (/tmp/arena_<name>: worktree + its own build tree) is kept for incremental rebuilds; remove with
 #   tools/arena.sh <name> --rm
 N=$1; P=$2; shift; shift
+[ "$P" != "-" ] && [ "$P" != "--rm" ] && P=$(realpath "$P")
 W=/tmp/arena_$N; 
 if [ "$P" = "--rm" ]; then git -C /repo worktree remove --force $W/src 2>/dev/null; rm -rf $W; exit 0; fi
 mkdir -p $W
